@@ -40,6 +40,7 @@ func bufCall(in ssa.Instruction, fBuf *types.Var, names ...string) *ssa.Call {
 func checkC15(c *Ctx) {
 	c.Explanation = "Decides the structure of the UDP transport: (O1) Read, Write, WriteByte, WriteString and Flush test IsOpen first and return the not-open error, everything else they do is on the open edge; (O2) the three write methods test `writeBuf.Len() + n > MaxLength` with the right n (len(buf), 1, len(s)) before appending, the refusing edge returns an error and appends nothing, and the append is the matching Buffer method with the method's own argument; (O3) Flush writes writeBuf.Bytes() to the socket exactly once and resets the buffer on every path after that; (O4) after a refused write the abandoned prefix must not stay buffered for the next message: the refusing path resets the buffer, or the writer (generated client / reporter.flush) discards it on error; (O5) the multi transport's Open/Close/Write/Flush/IsOpen visit every transport in order, leaving early only on an error / false; (O6) Close closes the socket only on the first swap of the closed flag; (O7) the reporter's flush counts a write error and returns normally."
 	c.Explanation += " Added later: (O8) a thrift protocol / transport is flushed only by a forwarding Flush method or after a successful WriteMessageEnd; (O9) no socket deadline is armed outside the function that performs the bounded operation."
+	c.Explanation += " Added by round 8: (O7 failed-batch-dropped, shared with C13) the reporter's flush returns an empty batch whatever the emit returned."
 	c.NotDecided = []string{"byte equality of datagrams", "socket behaviour"}
 	const pk = "m3/thriftudp"
 	tr := c.named(pk, "TUDPTransport")
